@@ -76,7 +76,7 @@ namespace {
       std::ios::sync_with_stdio(false);
       std::string line;
       LastBeh lastbeh;
-      long behaviours = 0, steps = 0, failed = 0, printed = 0;
+      long behaviours = 0, steps = 0, failed = 0, printed = 0, tolerated = 0;
       std::set<std::string> classes;
       std::map<std::string, long> fail_keys;
       std::string sample;
@@ -117,6 +117,13 @@ namespace {
                and vj::equal(got.at("o"), h.at("o"));
             auto cls = classify(exp, h.at("o"), before);
             classes.insert(exp.at("op").as_str() + "|" + cls + "|" + arg_shape(exp));
+            if (not same and h.find("alt") and h.at("alt").as_int() != 0 and got.at("out").as_str() == "ok"
+                and got.at("r").as_int() == h.at("alt").as_int()) {
+               // the library answered with the constant itself where the specification predicted a look-alike of its own: the
+               // properties allow both; identities diverge from here on, so the rest of this behaviour is not judged
+               ++tolerated;
+               break;
+            }
             if (not same) {
                ++failed;
                std::string why = got.at("out").as_str() != exp.at("out").as_str() ? "outcome"
@@ -150,7 +157,7 @@ namespace {
       auto cl = Value::array();
       for (auto& c : classes) cl.push(c);
       s.set("behaviours", behaviours).set("steps", steps).set("failed", failed).set("fail_keys", fk)
-         .set("classes", static_cast<long>(classes.size())).set("class_list", cl).set("sample", sample);
+         .set("classes", static_cast<long>(classes.size())).set("class_list", cl).set("sample", sample).set("constant_instead_of_lookalike", tolerated);
       std::cout << "SUMMARY " << vj::dump(s) << "\n";
       return 0;
    }
